@@ -29,7 +29,7 @@ pub struct SpecOpts {
 
 impl Default for SpecOpts {
     fn default() -> Self {
-        SpecOpts { globals: true, intermediate_globals: false, global_masters: false, max_elems: 24, max_depth: 5, static_pct: 10, reserve_junk: false }
+        SpecOpts { globals: true, intermediate_globals: true, global_masters: true, max_elems: 24, max_depth: 5, static_pct: 10, reserve_junk: false }
     }
 }
 
